@@ -551,3 +551,190 @@ func TestBuffers(t *testing.T) {
 		Check: checkBufs,
 	})
 }
+
+// ---------------------------------------------------------------------------
+// sub-check 5: the PREFIX is a field like the others.
+//
+// Texts are built for prefixes outside the two standard ones - empty, one
+// character, containing ':' (several, leading, trailing), newline, CR, tab, NUL,
+// non-ASCII and invalid UTF-8 bytes, very long - by the reference encoder (or
+// by the library's own encoder), always with the checksum computed over exactly
+// that text, so that only the layout rule decides. Everything after the prefix's
+// colon is hex, hence the only possible split is at the LAST colon. Asserted is
+// what the layout leaves no doubt about: an empty prefix is refused; a prefix
+// with a newline is refused; a non-empty prefix of printable ASCII without ':'
+// is accepted and returned; whatever is accepted decodes to fields whose
+// re-encoding is the text; ValidateAddress agrees with DecodeBIP276 on every
+// text that starts with "bitcoin-script:".
+// ---------------------------------------------------------------------------
+
+// Pfx is one case.
+type Pfx struct {
+	Prefix  pbt.Hex `json:"prefix"` // raw bytes of the prefix
+	Version int     `json:"version"`
+	Network int     `json:"network"`
+	Data    pbt.Hex `json:"data"`
+	Rep     int     `json:"rep,omitempty"` // > 0: the prefix is Prefix repeated up to Rep bytes
+	Via     string  `json:"via"`           // ref | lib: which encoder lays the text out
+}
+
+func (c Pfx) prefix() string {
+	if c.Rep <= 0 || len(c.Prefix) == 0 {
+		return string(c.Prefix)
+	}
+	b := make([]byte, c.Rep)
+	for i := range b {
+		b[i] = c.Prefix[i%len(c.Prefix)]
+	}
+	return string(b)
+}
+
+func printableNoColon(p string) bool {
+	if p == "" {
+		return false
+	}
+	for i := 0; i < len(p); i++ {
+		if p[i] < 0x20 || p[i] > 0x7e || p[i] == ':' {
+			return false
+		}
+	}
+	return true
+}
+
+func clipStr(s string) string {
+	if len(s) > 120 {
+		return fmt.Sprintf("%q..(%d bytes)", s[:120], len(s))
+	}
+	return fmt.Sprintf("%q", s)
+}
+
+func checkPfx(ctx *pbt.Ctx, c Pfx) error {
+	if c.Version < 1 || c.Version > 255 || c.Network < 1 || c.Network > 255 || c.Rep > 1<<16 {
+		ctx.Discard("outside domain")
+		return nil
+	}
+	p := c.prefix()
+	text := ref.EncodeBIP276(ref.BIP276{Prefix: p, Version: c.Version, Network: c.Network, Data: c.Data})
+	if c.Via == "lib" {
+		lt := bscript.EncodeBIP276(bscript.BIP276{Prefix: p, Version: c.Version, Network: c.Network, Data: append([]byte{}, c.Data...)})
+		if lt != text {
+			swapped := ref.EncodeBIP276(ref.BIP276{Prefix: p, Version: c.Network, Network: c.Version, Data: c.Data})
+			if !(c.Version != c.Network && lt == swapped && ctx.Known("L25b")) {
+				return fmt.Errorf("EncodeBIP276 with prefix %s: %s, BIP layout is %s", clipStr(p), clipStr(lt), clipStr(text))
+			}
+		}
+		text = lt
+	}
+	got, err := bscript.DecodeBIP276(text)
+	class := "other"
+	switch {
+	case p == "":
+		class = "empty"
+		if err == nil {
+			return fmt.Errorf("text %s has an EMPTY prefix and was accepted as {prefix %s version %d network %d data %x}", clipStr(text), clipStr(got.Prefix), got.Version, got.Network, got.Data)
+		}
+	case strings.Contains(p, "\n"):
+		class = "newline"
+		if err == nil {
+			return fmt.Errorf("text %s has a prefix containing a NEWLINE and was accepted with prefix %s", clipStr(text), clipStr(got.Prefix))
+		}
+	case printableNoColon(p):
+		class = "printable"
+		if err != nil {
+			return fmt.Errorf("text %s (printable prefix without colon, correct checksum) was rejected: %v", clipStr(text), err)
+		}
+		if got.Prefix != p {
+			return fmt.Errorf("text %s decodes with prefix %s, laid out with prefix %s", clipStr(text), clipStr(got.Prefix), clipStr(p))
+		}
+	case strings.Contains(p, ":"):
+		class = "colon"
+	}
+	if err == nil {
+		if got == nil {
+			return fmt.Errorf("text %s: nil result without an error", clipStr(text))
+		}
+		// what was accepted must re-encode to the text (the split cannot have been anywhere else)
+		re := ref.EncodeBIP276(ref.BIP276{Prefix: got.Prefix, Version: got.Version, Network: got.Network, Data: got.Data})
+		if re != text {
+			sw := ref.EncodeBIP276(ref.BIP276{Prefix: got.Prefix, Version: got.Network, Network: got.Version, Data: got.Data})
+			if !(got.Version != got.Network && sw == text && ctx.Known("L25b")) {
+				return fmt.Errorf("text %s was accepted as {prefix %s version %d network %d data %x}, which is the text %s", clipStr(text), clipStr(got.Prefix), got.Version, got.Network, got.Data, clipStr(re))
+			}
+		}
+		if !bytes.Equal(got.Data, c.Data) {
+			return fmt.Errorf("text %s decodes to data %x, laid out with %x", clipStr(text), got.Data, []byte(c.Data))
+		}
+		ctx.Label("class:" + class + ":accepted")
+	} else {
+		ctx.Label("class:" + class + ":refused")
+	}
+	if strings.HasPrefix(text, "bitcoin-script:") {
+		ok, verr := bscript.ValidateAddress(text)
+		if ok != (err == nil) || (verr == nil) != (err == nil) {
+			return fmt.Errorf("ValidateAddress(%s) = %v,%v but DecodeBIP276 err = %v", clipStr(text), ok, verr, err)
+		}
+		ctx.Label("validate-address-agrees")
+	}
+	if len(p) > 1000 {
+		ctx.Label("long-prefix")
+	}
+	if class != "printable" {
+		ctx.NonTrivial()
+	}
+	return nil
+}
+
+var pfxFixed = []string{"", ":", "::", ":::", "a", "a:", ":a", "a:b", "a::b", "a:b:c", "bitcoin-script:", "bitcoin-script::", "bitcoin-script:x", "bitcoin-script:0101",
+	":bitcoin-script", "0101", "ab:0101", "\n", "a\n", "\na", "a\nb", "a\n:b", "a:\nb", "bitcoin-script\n", "\r", "a\rb", "\t", "\x00", "a\x00b", " ", "é", "\xff", "\xc3", "a\xffb", "ünï:cödé"}
+
+func genPfx(t *rapid.T) Pfx {
+	c := Pfx{Version: rapid.IntRange(1, 255).Draw(t, "v"), Network: rapid.IntRange(1, 255).Draw(t, "n"),
+		Data: gen.FillBytes(t, gen.EdgeLen(t, 80, "dlen", 0, 1, 2, 20, 75, 76), "data"), Via: rapid.SampledFrom([]string{"ref", "ref", "lib"}).Draw(t, "via")}
+	switch rapid.IntRange(0, 5).Draw(t, "pkind") {
+	case 0:
+		c.Prefix = pbt.Hex(rapid.SampledFrom(pfxFixed).Draw(t, "fixed"))
+	case 1: // a soup of the characters that matter
+		n := rapid.IntRange(0, 6).Draw(t, "soup_n")
+		var b []byte
+		for i := 0; i < n; i++ {
+			b = append(b, rapid.SampledFrom([]string{":", ":", "\n", "\r", "\t", "\x00", "a", "0", "f", "-", "é", "\xff", "bitcoin-script", "01"}).Draw(t, "soup")...)
+		}
+		c.Prefix = b
+	case 2: // arbitrary bytes
+		c.Prefix = rapid.SliceOfN(rapid.Byte(), 0, 12).Draw(t, "bytes")
+	case 3: // a standard prefix with something inserted
+		s := []byte(rapid.SampledFrom([]string{bscript.PrefixScript, bscript.PrefixTemplate}).Draw(t, "std"))
+		i := rapid.IntRange(0, len(s)).Draw(t, "ins_at")
+		ins := rapid.SampledFrom([]string{":", "\n", "\x00", "::", "\r\n", "é"}).Draw(t, "ins")
+		c.Prefix = append(append(append([]byte{}, s[:i]...), ins...), s[i:]...)
+	case 4: // very long
+		c.Prefix = pbt.Hex(rapid.SampledFrom([]string{"a", "ab", "a:", ":", "a\n", "bitcoin-script", "é"}).Draw(t, "unit"))
+		c.Rep = rapid.SampledFrom([]int{255, 256, 1000, 4096, 65535}).Draw(t, "rep")
+	default:
+		c.Prefix = pbt.Hex(rapid.StringMatching(`[ -~]{1,24}`).Draw(t, "ascii"))
+	}
+	return c
+}
+
+func TestPrefixes(t *testing.T) {
+	pbt.Run(t, pbt.Sub[Pfx]{
+		Name: "prefixes", Quick: 60000, Thorough: 1500000,
+		Gen:   genPfx,
+		Check: checkPfx,
+		EnumDesc: "35 fixed prefixes (empty, colons in every position, newline / CR / tab / NUL / space, non-ASCII and invalid UTF-8, hex-looking, standard prefix + colon) and the long ones x {ref, lib encoder} x (version, network) in {(1,1), (1,2), (255,16)} x payload lengths {0, 1, 20}",
+		Enum: func(tier string, yield func(Pfx)) {
+			for _, via := range []string{"ref", "lib"} {
+				for _, vn := range [][2]int{{1, 1}, {1, 2}, {255, 16}} {
+					for _, dl := range []int{0, 1, 20} {
+						for _, p := range pfxFixed {
+							yield(Pfx{Prefix: pbt.Hex(p), Version: vn[0], Network: vn[1], Data: fixedData(dl, vn[0]), Via: via})
+						}
+						for _, u := range []string{"a", "a:", "a\n"} {
+							yield(Pfx{Prefix: pbt.Hex(u), Rep: 4096, Version: vn[0], Network: vn[1], Data: fixedData(dl, vn[1]), Via: via})
+						}
+					}
+				}
+			}
+		},
+	})
+}
